@@ -279,11 +279,15 @@ class Runner:
         self.results = []  # (session, result dict)
         self.group_time = {}  # (hosts, threads) -> [session seconds, cases]
         self.symcache = {}    # crash addresses -> (where, backtrace text)
+        self.nopace_hosts = ()  # host counts whose sessions run unpaced
         self.start_s = 150    # no first begin marker after that: launch failed
         self.max_starting = 3  # sessions inside MPI_Init at the same time
         self.exit_s = 25      # done marker seen, process still there
         self.exit_hangs = []  # stacks of sessions that would not exit
         self.kept = 0
+
+    def shm_dir(self, s):
+        return "/dev/shm/e4-%d-s%05d" % (os.getpid(), s.sid)
 
     def paths(self, s):
         b = os.path.join(self.workdir, "s%05d" % s.sid)
@@ -309,10 +313,19 @@ class Runner:
         os.makedirs(tmpd, exist_ok=True)
         env["OMPI_MCA_orte_tmpdir_base"] = tmpd
         env["TMPDIR"] = tmpd
-        # shared-memory segments live there too (not in /dev/shm), so a
+        # shared-memory segments: a directory of this session's own INSIDE
+        # /dev/shm (tmpfs; a disk-backed directory makes millions of tiny
+        # messages crawl under I/O load), removed with the session, so a
         # session that had to be SIGKILLed leaks nothing
-        env["OMPI_MCA_btl_vader_backing_directory"] = tmpd
+        shmd = self.shm_dir(s)
+        os.makedirs(shmd, exist_ok=True)
+        env["OMPI_MCA_btl_vader_backing_directory"] = shmd
         env["GALOIS_DO_NOT_BIND_THREADS"] = "1"
+        if self.nopace_hosts and s.hosts in self.nopace_hosts:
+            # C18 at 2 hosts: the napping shim (e4_pace.h) is switched off --
+            # every stalled or crawling sync session seen in development was
+            # a paced 2-host one; unpaced sessions never stalled
+            env["VERIF_E4_NOPACE"] = "1"
         cmd = ["mpirun", "--allow-run-as-root", "--oversubscribe", "-np",
                str(s.hosts), self.exe, fin, fout, str(s.threads)]
         s.logf = open(flog, "wb")
@@ -421,6 +434,9 @@ class Runner:
     def kill_all(self):
         """Last sweep when the driver leaves: nothing of this run survives."""
         self._kill_pids(self.rank_pids(None))
+        import glob
+        for d in glob.glob("/dev/shm/e4-%d-s*" % os.getpid()):
+            shutil.rmtree(d, ignore_errors=True)
 
     def rank_logs(self, s):
         fout = self.paths(s)[1]
@@ -623,6 +639,7 @@ class Runner:
             except OSError:
                 pass
         shutil.rmtree(self.paths(s)[0][:-3] + ".tmp", ignore_errors=True)
+        shutil.rmtree(self.shm_dir(s), ignore_errors=True)
 
 
 # source files of the components these checks are about (the working tree may
@@ -877,8 +894,13 @@ def c18_plan(tier):
     add = plan.append
 
     def mk(g, pol, out, sym=0, capbits=7, forced="all"):
-        return make_case(g, pol, out, sym, "void", capbits=capbits,
-                         modes=C18_MODES_ALL, forced=forced)
+        # paced sessions (e4_pace.h) stay away from the asynchronous master
+        # assignment: Ginger/Fennel/Sugar are partitioned with cuspAsync=false
+        # here (C19 covers cuspAsync=true, unpaced)
+        cls = SYM_CLASSES[pol] if sym else POLICIES[pol][0]
+        return make_case(g, pol, out, sym, "void",
+                         casync=0 if cls in CUSTOM_MASTER else 1,
+                         capbits=capbits, modes=C18_MODES_ALL, forced=forced)
     if tier == "quick":
         # 9 small graphs chosen to cover: an edge between the hosts' blocks in
         # either direction, self loop, parallel edges, isolated node, two
@@ -886,20 +908,28 @@ def c18_plan(tier):
         names = ["n2m1_01", "n2m2_0110", "n3m1_02", "n3m2_0112", "n3m2_0121",
                  "n3m2_1020", "n3m2_0202", "n3m2_0022", "n3m2_1221"]
         gs = pick(small2, names)
-        for h in (2, 3):
-            for g in gs:
-                for pol in ("oec", "iec", "hovc", "cvc", "ginger-o",
-                            "fennel-o", "sugar-o"):
-                    add((h, 1, mk(g, pol, "csr", forced="diag")))
-                for pol in ("oec", "hivc", "cvc-iec"):
-                    add((h, 1, mk(g, pol, "csc", forced="diag")))
+        for i, g in enumerate(gs):
+            # 2 hosts run unpaced (slower): every graph x 3 policies, the
+            # policy triple rotating through all ten configurations
+            cfg = [("oec", "csr"), ("iec", "csr"), ("hovc", "csr"),
+                   ("cvc", "csr"), ("ginger-o", "csr"), ("fennel-o", "csr"),
+                   ("sugar-o", "csr"), ("oec", "csc"), ("hivc", "csc"),
+                   ("cvc-iec", "csc")]
+            for k in range(3):
+                pol, out = cfg[(3 * i + k) % len(cfg)]
+                add((2, 1, mk(g, pol, out, capbits=6, forced="diag")))
+            for pol in ("oec", "iec", "hovc", "cvc", "ginger-o", "fennel-o",
+                        "sugar-o"):
+                add((3, 1, mk(g, pol, "csr", capbits=6, forced="diag")))
         for h in (2, 3, 4):
             for g in pick(struct, ["path5", "instar5", "cycle4"]):
                 for pol, out in (("oec", "csr"), ("iec", "csr"),
                                  ("cvc", "csr"), ("cvc", "csc"),
                                  ("hovc", "csr"), ("ginger-i", "csr")):
+                    if h == 3 and pol in ("hovc", "ginger-i"):
+                        continue
                     t = 2 if (h == 2 and g.name == "cycle4" and
-                              pol in ("oec", "cvc")) else 1
+                              pol == "oec") else 1
                     add((h, t, mk(g, pol, out, capbits=5, forced="diag")))
         # all encodings on all location pairs, bitsetData chosen automatically
         add((2, 1, mk(fan_graph(), "oec", "csr", capbits=4)))
@@ -1099,6 +1129,11 @@ def run_check(a, prop, tier, exe, workdir, deadline_at):
     else:
         per = lambda h, t: 8  # noqa: E731
         stall = 120
+    global MAXRANKS
+    if prop == "C18" and "VERIF_E4_RANKS" not in os.environ:
+        # paced ranks wake up ~50k times a second per thread: beyond ~8 ranks
+        # the timer traffic itself becomes the bottleneck (measured)
+        MAXRANKS = 8
     sessions = chunk_sessions(plan, reps, per)
     # round-robin the groups so sessions of different host counts mix
     sessions.sort(key=lambda s: (s.rep, s.sid % 7, -s.hosts))
@@ -1111,6 +1146,8 @@ def run_check(a, prop, tier, exe, workdir, deadline_at):
         "(<= %d ranks at a time), deadline %.0fs" %
         (prop, tier, len(plan), reps, len(sessions), MAXRANKS, a.deadline))
     runner = Runner(exe, workdir, files, stall)
+    if prop == "C18":
+        runner.nopace_hosts = (2,)
     RUNNERS.append(runner)
 
     cells = {}      # cell name -> stats
